@@ -16,6 +16,13 @@
    vertices, ResolveEdgeInfo::destination() for neighbours, incl. fold edges and @recurse(depth: 1)):
    static candidates and dynamic candidates other than `>=` (F10), with the tag values read from the
    row being built as Sem.v defines them; rows are equal as LISTS (same order).
+   AT THE ENGINE-MODEL LEVEL (last section; uses the C01 simulation Sim*.v): the interpreter of Exec.v run
+   with an adapter that prunes per context (`interpret_P`) returns the rows of the plain interpreter
+   (`interpret`) for every admissible pruner, in particular the pruner built from the hints
+   (C04_engine_pruning_invisible / C04_engine_pruning_by_hints_invisible; queries with @fold included,
+   except folds eligible for the take(min) early termination); and the candidate `resolve()` computes on
+   the engine's DataContext is the one computed from the row's tag values (C04_dyn_resolve_agrees...),
+   which closes item (b) below.
    MISSING: (a) the mandatory-edge look-ahead inside the end-to-end statement - only the local facts
    are proved (what mandatory_edges_with_name lists, hints stay binding across those edges, a vertex
    without such an edge / with an empty required fold yields no row: the C04_mandatory theorems); (b) that the tag
@@ -27,6 +34,7 @@
    K-ge-tag-hint); F17 - a null tag value panics in Range::with_end/with_start / as_slice (class
    K-null-tag-hint).  Witnesses below; the soundness theorems exclude exactly these. *)
 From TF Require Import Ty Hints HintsProofs.
+From TF Require Import Exec Sem Sim SimComp SimOut SimGen WfCheck HintsEngine.
 Local Open Scope string_scope.
 Local Open Scope N_scope.
 
@@ -276,3 +284,102 @@ Example C04_pruner_prunes_and_is_invisible :
     sem no_regex g [] q = [[("id", U64 1); ("o2", I64 3)]].
 Proof. vm_compute. repeat split; reflexivity. Qed.
 Print Assumptions C04_pruner_prunes_and_is_invisible.
+
+(* ---------------------------------------------------------------------------------------- *)
+(* the engine model (Exec.v) with a pruning adapter                                            *)
+(* ---------------------------------------------------------------------------------------- *)
+(* resolve() on a DataContext c = the candidate computed from the tag values (Sem.arg_value) of the
+   row c stands for (asg_of c, with c's imported tags); `tag_scope_ok` is the scoping of tags in compiled
+   queries (a tag defined before the component's root is imported, a fold-count tag not defined
+   before the root belongs to a fold of the component) *)
+Theorem C04_dyn_resolve_agrees :
+  forall q g args dv c root vs ss outs cur cur_ty cand k,
+    comp_at q (dv_start dv) = Ok (mkComp root vs ss outs) ->
+    tag_scope_ok root vs ss (dv_field dv) ->
+    (forall cf, dv_field dv = FRContext cf -> cf_vid cf <> cur) ->
+    dyn_resolve q g dv c = Ok k ->
+    cand_from_op (dyn_nr q dv) (dv_op dv) (dv_init dv)
+      (arg_value g args vs ss (imported_tags c) (asg_of c) cur cur_ty cand (ATag (dv_field dv))) = Ok k.
+Proof. exact dyn_resolve_agrees. Qed.
+Print Assumptions C04_dyn_resolve_agrees.
+
+(* for the hints of destination() of the edge being resolved: exactly the candidate hint_pruner uses *)
+Theorem C04_dyn_resolve_agrees_destination :
+  forall q g args e p dv vtx c n root vs ss outs k, args_wf args ->
+    dynamically_required q args (dest_of_edge e) p = Ok (Some dv) ->
+    current_vertex q (dest_of_edge e) = Ok vtx ->
+    comp_at q (e_from e) = Ok (mkComp root vs ss outs) ->
+    tag_scope_ok root vs ss (dv_field dv) ->
+    dyn_resolve q g dv c = Ok k ->
+    cand_from_op (dyn_nr q dv) (dv_op dv) (dv_init dv)
+      (sem_tagval g args vs ss (imported_tags c) (asg_of c) n vtx (dv_field dv)) = Ok k.
+Proof. exact dyn_resolve_agrees_destination. Qed.
+Print Assumptions C04_dyn_resolve_agrees_destination.
+
+(* the interpreter with a per-context pruning adapter refines the specification, for admissible
+   pruners (wf_comp / wf_out / NoDup: the static hypotheses of SimFull.interpret_spec) *)
+Theorem C04_interpret_P_spec :
+  forall re g args P, ty_indep g -> forall q rows,
+    admissible re g args P q ->
+    wf_comp args [] (q_comp q) -> wf_out (q_comp q) -> NoDup (all_output_names (q_comp q)) ->
+    interpret_P re g args P q = Ok rows -> Forall2 row_equiv rows (sem re g args q).
+Proof. exact interpret_P_spec. Qed.
+Print Assumptions C04_interpret_P_spec.
+
+(* pruning_invisible for the engine model: same rows, same order (rows as name -> value maps) *)
+Theorem C04_engine_pruning_invisible :
+  forall re g args P q rows_pruned rows_plain,
+    ty_indep g -> admissible re g args P q ->
+    wf_comp args [] (q_comp q) -> wf_out (q_comp q) -> NoDup (all_output_names (q_comp q)) ->
+    interpret_P re g args P q = Ok rows_pruned -> interpret re g args q = Ok rows_plain ->
+    Forall2 row_equiv rows_pruned rows_plain.
+Proof. exact engine_pruning_invisible. Qed.
+Print Assumptions C04_engine_pruning_invisible.
+
+(* ... with the adapter pruning by the hints of the vertex being produced (outside K-ge-tag-hint;
+   resolutions that would panic, K-null-tag-hint, are not used); static side conditions as the
+   computable test WfCheck.spec_hyps *)
+Theorem C04_engine_pruning_by_hints_invisible :
+  forall re g args q rows_pruned rows_plain,
+    ty_indep g -> args_wf args -> wf_hints_query q = true -> spec_hyps args q = true ->
+    (forall ty f n, wf (g_prop g ty f n) = true) ->
+    (forall c vtx f n,
+        subcomp c (q_comp q) -> In vtx (c_vertices c) -> In f (v_filters vtx) -> ty_nullable (vf_fty f) = false ->
+        match v_from vtx with Some from => g_coerce g from (v_type vtx) n = true | None => True end ->
+        fv_is_null (g_prop g (v_type vtx) (vf_field f) n) = false) ->
+    interpret_P re g args (hint_pruner g args q) q = Ok rows_pruned -> interpret re g args q = Ok rows_plain ->
+    Forall2 row_equiv rows_pruned rows_plain.
+Proof. exact engine_pruning_by_hints_invisible_checked. Qed.
+Print Assumptions C04_engine_pruning_by_hints_invisible.
+
+(* the fold-free fragment needs no static hypothesis beyond recursion depths >= 1 (edges_only) *)
+Theorem C04_engine_pruning_invisible_fold_free :
+  forall re g args P q rows_pruned rows_plain,
+    ty_indep g -> edges_only (c_steps (q_comp q)) = true ->
+    admissible re g args P q ->
+    interpret_P re g args P q = Ok rows_pruned -> interpret re g args q = Ok rows_plain ->
+    Forall2 row_equiv rows_pruned rows_plain.
+Proof. exact engine_pruning_invisible_fold_free. Qed.
+Print Assumptions C04_engine_pruning_invisible_fold_free.
+
+(* non-vacuity: both interpreters return on the F17 query (dynamic `<` hint; ds_nv) and on the F11a
+   query (a @fold whose elements are pruned by a dynamic `=` hint on an imported tag), the side
+   conditions hold, and the rows coincide *)
+Definition ds_fold : dataset :=
+  mkDS [(1, "Gadget"); (2, "Box")] [(1, [("id", U64 1); ("name", Str "a")]); (2, [("id", U64 2); ("name", Str "b")])]
+       [(1, [("link", [2; 1])]); (2, [("link", [2; 1])])]
+       [("Thing", [1; 2])] [("Thing", ["Box"; "Leaf"; "Gadget"])].
+Example C04_engine_runs_agree :
+  (let q := q_of rq_f17 in let g := graph_of_dataset ds_nv in
+   spec_hyps [] q = true /\ wf_hints_query q = true /\
+   interpret_P no_regex g [] (hint_pruner g [] q) q = Ok [[("id", U64 1); ("o2", I64 3)]] /\
+   interpret no_regex g [] q = Ok [[("id", U64 1); ("o2", I64 3)]]) /\
+  (let q := q_of rq_f11a in let g := graph_of_dataset ds_fold in
+   spec_hyps [] q = true /\ wf_hints_query q = true /\
+   (* the fold edge of the row with vertex 1 := dataset vertex 1 (name "a"): neighbour 2 ("b") is dropped *)
+   map (pr_fold (hint_pruner g [] q) (c_vertices (q_comp q)) (c_steps (q_comp q)) []
+                (mkFH 1 1 2 "link" [] [FRContext (mkCF 1 "name" ty_str)] [] []) (Asg [(1, Some 1)] [])) [2; 1] = [false; true] /\
+   interpret_P no_regex g [] (hint_pruner g [] q) q = interpret no_regex g [] q /\
+   interpret no_regex g [] q = Ok [[("id", U64 1); ("ids", List [U64 1])]; [("id", U64 2); ("ids", List [U64 2])]]).
+Proof. vm_compute. repeat split; reflexivity. Qed.
+Print Assumptions C04_engine_runs_agree.
